@@ -5,6 +5,7 @@ CONSTANTS
   MaxInp = 8
   MaxWrite = 3
   EmitOps = TRUE
+  EmitEvery = 300
   Backward = FALSE
 INVARIANT Inv
 PROPERTY Refines
